@@ -159,7 +159,8 @@ class C12(Property):
         "that HAS a NaN and parses 'nan': nanLaws_zn) stored_not_nan / clamps_ordinary (every stored time, beat length, slider velocity, scroll speed is not NaN and lies "
         "in its range with the scalar's own <=) and nan_inherited_line (NaN beat length on an inherited line: accepted, ticks off, velocity and scroll speed exactly 1); "
         "pending_eq_groups_finite (the sameGroup t t assumption discharged from the parser's range check, leaving FiniteSelfGroup: finite t has |t-t| < eps) and "
-        "pending_eq_groups_exact (under ExactScalar of Lemmas/ExactArith.lean with eps > 0; instance on the reals: finiteSelfGroup_real). "
+        "pending_eq_groups_exact (under ExactScalar of Lemmas/ExactArith.lean with eps > 0; instance on the reals: finiteSelfGroup_real); "
+        "lists_strictly_sorted_time (strictly increasing in TIME with one point per time, under C13's TimeKeyOn on the accepted times). "
         "Model tied to the code on every run through the public TimingPoints::parse_general / parse_timing_points / From on exhaustive short sequences "
         "over the property's line alphabet in all four modes + random long sequences (omitted trailing fields, malformed fields, comments, whitespace, "
         "[General] lines) + the [General] parser alone + the number-codec differential; an independent transcription of the legacy group rule is evaluated "
@@ -180,7 +181,7 @@ class C12(Property):
         "scalarParse_inRange", "parseBeatLen_range", "accepted_line_numbers", "accepted_time_inRange", "clamp_not_nan", "clamp_nan_stays",
         "speedMultiplier_not_nan", "between_of_within", "line_ordinary", "clamps_ordinary", "clamps_ordinary_fresh", "stored_not_nan",
         "nan_inherited_point_one", "nan_inherited_line", "pending_eq_groups_finite", "sameGroup_exact", "finiteSelfGroup_of_exact",
-        "pending_eq_groups_exact", "nanLaws_zn", "clampLaws_zn", "finiteSelfGroup_real",
+        "pending_eq_groups_exact", "lists_strictly_sorted_time", "nanLaws_zn", "clampLaws_zn", "finiteSelfGroup_real",
     ]
     partial_theorems = {
         "pending_eq_groups / pending_eq_groups_finite / pending_eq_groups_exact":
@@ -195,7 +196,10 @@ class C12(Property):
         "nan_inherited_point / nan_inherited_point_one / nan_inherited_line":
             "law-dependent: 'NaN < 0 is false' (generate_ticks = false, multiplier 1) plus the literal comparisons not(1 < 0.1), not(10 < 1), not(1 < 0.01) for "
             "'velocity and scroll speed are exactly 1'",
-        "lists_strictly_sorted": "ordering is by the total_cmp key, not by time (+0.0 / -0.0: finding F8, see C13 - times_strictly_sorted there shows +-0 and NaN are the only way the time reading fails)",
+        "lists_strictly_sorted / lists_strictly_sorted_time":
+            "lists_strictly_sorted is by the total_cmp key (holds for IEEE). 'Strictly increasing in TIME, one point per time' is proved under C13's TimeKeyOn S for "
+            "the set S of accepted times (lists_strictly_sorted_time); for IEEE f64 that hypothesis holds unless the accepted times contain both +0.0 and -0.0 "
+            "(NaN times are rejected by the parser: accepted_time_inRange) - finding F8 is the only way this clause fails; not kernel-checked for Float",
     }
     trusted_base = [
         "Lean 4.33.0 kernel",
